@@ -29,7 +29,7 @@ def one(pid, i):
     finally:
         sh(f"git -C /repo worktree remove --force {wt}", "/")
         shutil.rmtree(wt, ignore_errors=True)
-jobs = [(p, i) for p in ids for i in (1, 2)]
+jobs = [(p, i) for p in ids for i in (1, 2, 3) if i < 3 or os.path.exists(os.path.join(OUT, p, "patch3.diff"))]
 with cf.ThreadPoolExecutor(8) as ex:
     for pid, i, st, info in ex.map(lambda a: one(*a), jobs):
         print(pid, i, st, info.replace("\n", "\n     "), flush=True)
